@@ -37,6 +37,13 @@ pub struct Scn {
     /// microseconds added to the fixed timeout
     #[serde(default)]
     pub fixed_frac_us: u32,
+    /// the service is built while another (never driven) runtime's context is entered
+    #[serde(default)]
+    pub built_elsewhere: bool,
+    /// indices of calls whose inner future is busy (uses up tokio's cooperative budget at every
+    /// poll); the simulated tasks then run with a budget like real tokio tasks
+    #[serde(default)]
+    pub busy: Vec<u32>,
 }
 
 pub fn gen(rng: &mut Rng) -> Scn {
@@ -75,6 +82,8 @@ pub fn gen(rng: &mut Rng) -> Scn {
         listener_panic: rng.chance(1, 8),
         calls,
         fixed_frac_us: if rng.chance(1, 5) { *rng.pick(&[1u32, 400, 500, 900, 999]) } else { 0 },
+        built_elsewhere: rng.chance(1, 8),
+        busy: if rng.chance(1, 6) { vec![rng.below(n as u64) as u32] } else { vec![] },
         knobs: SchedKnobs::gen(rng, true, 80),
     }
 }
@@ -88,6 +97,8 @@ pub fn valid(s: &Scn) -> bool {
         && s.knobs.jumps.iter().all(|j| j.0 <= 300 && j.1 <= 200)
         && s.fixed_frac_us <= 999
         && s.calls.iter().all(|c| c.frac_us <= 999)
+        // one busy call at most: two would delay each other (each busy poll takes a virtual ms)
+        && s.busy.len() <= 1
 }
 
 fn map_out(r: Result<crate::inner::Resp, TimeLimiterError<SimErr>>) -> Out {
@@ -135,6 +146,12 @@ pub fn run(s: &Scn, ctx: &mut RunCtx) -> RunOutput {
             for (i, c) in scn.calls.iter().enumerate() {
                 w.script.by_req.insert((0, i as u32), vec![c.beh]);
             }
+            if !scn.busy.is_empty() {
+                w.script.constrained_tasks = true;
+                for b in &scn.busy {
+                    w.script.busy.insert((0, *b % scn.calls.len() as u32));
+                }
+            }
         });
         let lp = scn.listener_panic;
         let mut defs = vec![];
@@ -157,7 +174,7 @@ pub fn run(s: &Scn, ctx: &mut RunCtx) -> RunOutput {
                         });
                 }
                 let layer = b.build();
-                let base = layer.layer(SimInner::new(0));
+                let base = if scn.built_elsewhere { built_in_foreign_runtime(|| layer.layer(SimInner::new(0))) } else { layer.layer(SimInner::new(0)) };
                 for (i, c) in scn.calls.iter().enumerate() {
                     defs.push(TaskDef {
                         start_ms: c.start_ms,
@@ -192,6 +209,7 @@ pub fn run(s: &Scn, ctx: &mut RunCtx) -> RunOutput {
     let mut step = |_k| {};
     let mut idle = || {};
     let rep = run_sim(cfg, &mut ctx.chooser, setup, Hooks { step: &mut step, idle: &mut idle });
+    drop_foreign_runtime();
     let log = world::with(|w| std::mem::take(&mut w.log));
     let calls = inner_calls(&log);
     let jump = s.knobs.total_jump() * 1000;
@@ -353,13 +371,13 @@ impl Prop for C06 {
         }
     }
     fn nontrivial_rule(&self) -> &'static str {
-        "scenario = cancellation mode, fixed or per-request timeouts from {0,10,25,50}ms (optionally plus a sub-millisecond part) or Duration::MAX, builder call order, 1-6 concurrent calls on clones with latencies below/at/above the timeout or never, ok/error, caller cancels, clock jumps, panicking listeners; schedule seeded (select! branch order via tokio rng_seed). Non-trivial: at least one call timed out. Distinct = distinct event-log digest."
+        "scenario = cancellation mode, fixed or per-request timeouts from {0,10,25,50}ms (optionally plus a sub-millisecond part) or Duration::MAX, builder call order, 1-6 concurrent calls on clones with latencies below/at/above the timeout or never, ok/error, caller cancels, clock jumps, panicking listeners, service built inside another runtime's context, at most one busy inner call that uses up tokio's cooperative budget at every poll (tasks then run budgeted, each busy poll costs 1 virtual ms); schedule seeded (select! branch order via tokio rng_seed). Non-trivial: at least one call timed out. Distinct = distinct event-log digest."
     }
     fn real_components(&self) -> Vec<&'static str> {
         vec!["tower-resilience-timelimiter (TimeLimiter, builder, both modes)", "tokio::time::timeout / sleep / select! / spawn / oneshot on the paused clock"]
     }
     fn stub_components(&self) -> Vec<&'static str> {
-        vec!["inner service (SimInner: latency, ok/error/never, Drop guard + completion marker)", "event listeners"]
+        vec!["inner service (SimInner: latency by sleeping or by burning the cooperative budget, ok/error/never, Drop guard + completion marker)", "event listeners"]
     }
     fn assumptions(&self) -> Vec<&'static str> {
         vec!["latency == timeout is a tie: either result accepted, instant must still be the deadline", "in clock-jump runs instants may be late by at most the jump and either ready result is accepted", "library-spawned task (keep-running mode) runs on tokio's FIFO queue, perturbed by seeded yields"]
